@@ -1,2 +1,3 @@
 import PflDrv.Json
 import PflDrv.FA
+import PflDrv.CFG
